@@ -396,6 +396,27 @@ def run(ctx, chk, tier="quick"):
         g = ctx.func(fq)
         for wcall, marker, dump in vector_dumps(ctx, g):
             markers[label] = marker.strip()
+            # the values start on the line after the marker: nothing else is written to the file between the marker and the vector
+            if dump is not None:
+                from ..source import enclosing_stmt as _encl
+                blk = _encl(wcall)
+                par_ = getattr(blk, "parent", None)
+                body_ = next((getattr(par_, fld) for fld in ("body", "orelse") if blk in getattr(par_, fld, [])), None)
+                dstmt = getattr(dump, "loop", None) or _encl(dump)
+                while dstmt is not None and body_ is not None and dstmt not in body_:
+                    dstmt = getattr(dstmt, "parent", None)
+                if body_ is not None and dstmt in body_:
+                    recv = ast.unparse(wcall.func.value)
+                    between = body_[body_.index(blk) + 1:body_.index(dstmt)]
+                    extra = [c_ for st_ in between for c_ in ast.walk(st_) if isinstance(c_, ast.Call) and (
+                        (isinstance(c_.func, ast.Attribute) and c_.func.attr in ("write", "writelines") and ast.unparse(c_.func.value) == recv)
+                        or ((dotted_name(c_.func) or "").endswith("yaml.dump") and len(c_.args) > 1 and ast.unparse(c_.args[1]) == recv)
+                        or (isinstance(c_.func, ast.Name) and c_.func.id == "print" and any(k.arg == "file" and ast.unparse(k.value) == recv for k in c_.keywords)))]
+                    chk.ob("C19.O6", not extra, where_of(g, extra[0] if extra else wcall),
+                           "%s output: %s between the marker line and the vector" % (label, ("`%s` is written" % ast.unparse(extra[0])[:60]) if extra else "nothing is written"),
+                           "the vector starts on the line after the marker: the instruction file reads item k from the k-th line after it (`l1` per item)",
+                           key="%s|after-marker" % g.qualname,
+                           why="an extra line (a note, a blank line, a header) shifts every read by one level: item 1 reads text, the last level is never read; a YAML reader sees no difference, PEST does")
             if dump is not None and getattr(dump, "item_format", None) is not None:
                 item_formats[label] = (g, dump.loop, dump.item_format)
     for kind in KINDS:
@@ -410,6 +431,9 @@ def run(ctx, chk, tier="quick"):
             if it.kind == "lit" and it.template.startswith("@"):
                 seq.append(it.template.strip("@").strip())
         want = [markers.get("rise")] if kind == "rise" else [markers.get("rise"), markers.get("recession")]
+        if None in want:
+            chk.indeterminate("C19.O6", where_of(f, f.node), "%s .ins markers %s: the marker line the simulate command writes is not found (%s)" % (kind, seq, want))
+            continue
         chk.ob("C19.O6", seq == want, where_of(f, f.node), "%s .ins markers %s" % (kind, seq), "the comment lines simulate writes: %s" % want,
                key="%s|markers" % f.qualname, why="PEST searches the model output for the marker text before reading values")
         for it in fams:
